@@ -112,18 +112,17 @@ def _compute_spfs_entry(
 
         for desc_species in species_lca.tree.traverse():
             for child_synteny in table[child_object][desc_species]:
-                conserv_dist = (
-                    subseq_segment_dist(
-                        child_synteny,
-                        root_synteny,
-                        edges=True,
-                    )
-                    * sloss_cost
+                conserv_segments = subseq_segment_dist(
+                    child_synteny,
+                    root_synteny,
+                    edges=True,
                 )
 
-                if conserv_dist < 0:
+                if conserv_segments < 0:
                     # Not a subsequence of the parent synteny
                     continue
+
+                conserv_dist = conserv_segments * sloss_cost
 
                 segment_dist = (
                     subseq_segment_dist(child_synteny, root_synteny, edges=False)
